@@ -110,6 +110,16 @@ def raise_type(r: ast.Raise) -> str:
     if r.exc is None:
         return "<reraise>"
     e = r.exc
+    if isinstance(e, ast.Name):
+        # `err = SomeError(...); raise err`: the class of the single local binding
+        fn = r
+        while fn is not None and not isinstance(fn, (ast.FunctionDef, ast.AsyncFunctionDef)):
+            fn = getattr(fn, "_parent", None)
+        if fn is not None:
+            src = [a for a in ast.walk(fn) if isinstance(a, ast.Assign) and len(a.targets) == 1 and isinstance(a.targets[0], ast.Name) and a.targets[0].id == e.id]
+            handlers = [h for h in ast.walk(fn) if isinstance(h, ast.ExceptHandler) and h.name == e.id]
+            if len(src) == 1 and not handlers and isinstance(src[0].value, ast.Call):
+                e = src[0].value
     if isinstance(e, ast.Call):
         return ast.unparse(e.func)
     return ast.unparse(e)
